@@ -3,6 +3,7 @@ import Driver.C08
 import Driver.C07
 import Driver.Wire
 import Driver.C13
+import Driver.Header
 import Driver.C19
 import Driver.C17
 import Driver.C14
@@ -28,6 +29,7 @@ def dispatch (line : String) : String :=
     else if op.startsWith "c14." then Driver.C14.handle toks
     else if op.startsWith "c17." then Driver.C17.handle toks
     else if op.startsWith "c19." then Driver.C19.handle toks
+    else if op.startsWith "h." then Driver.Header.handle toks
     else "bad-op"
 
 partial def loop (h : IO.FS.Stream) (out : IO.FS.Stream) : IO Unit := do
